@@ -27,14 +27,19 @@ def _run_native(bin_name, args, features=None, timeout=900):
 _playbacks_done = 0
 
 
-def kani_playback(feature, harness):
+def kani_playback(feature, harness, kernel=False):
     """Kani concrete playback: obtain the counterexample as a unit test, run it natively against the real code."""
     import shutil
     from . import kani_engine as K
-    K.generate()
-    cmd = ["cargo", "kani", "--features", feature, "-Z", "stubbing", "-Z", "unstable-options", "-Z", "concrete-playback", "--concrete-playback=print",
+    if kernel:
+        K.assemble_kernels()
+        crate, target, fflags, zflags = K.KERN, os.path.join(BUILD, "kern-target-" + REPO_TAG), [], ["-Z", "unstable-options"]
+    else:
+        K.generate()
+        crate, target, fflags, zflags = K.KX, K.KTARGET, ["--features", feature], ["-Z", "stubbing", "-Z", "unstable-options"]
+    cmd = ["cargo", "kani"] + fflags + zflags + ["-Z", "concrete-playback", "--concrete-playback=print",
            "--harness-timeout", "900s", "--output-format", "terse", "--harness", harness]
-    rc, so, se, wall = sh(cmd, cwd=K.KX, timeout=1500, env=env_offline({"CARGO_TARGET_DIR": K.KTARGET}))
+    rc, so, se, wall = sh(cmd, cwd=crate, timeout=1500, env=env_offline({"CARGO_TARGET_DIR": target}))
     m = re.search(r"```\n(.*?#\[test\].*?)```", so, re.S)
     if not m:
         return {"reproduced": False, "method": "kani --concrete-playback=print produced no test", "stdout": so[-1500:]}
@@ -44,7 +49,7 @@ def kani_playback(feature, harness):
     # copy the harness crate, append the test to the module that holds the harness, run natively
     dst = os.path.join(BUILD, "playback", "kx")
     shutil.rmtree(dst, ignore_errors=True)
-    shutil.copytree(K.KX, dst, ignore=shutil.ignore_patterns("target"))
+    shutil.copytree(crate, dst, ignore=shutil.ignore_patterns("target"))
     placed = False
     for root, _, files in os.walk(os.path.join(dst, "src")):
         for f in files:
@@ -57,7 +62,7 @@ def kani_playback(feature, harness):
                 placed = True
     if not placed:
         return {"reproduced": False, "method": "harness source not found for playback"}
-    cmd2 = ["cargo", "kani", "playback", "-Z", "concrete-playback", "--features", feature, "--", tname]
+    cmd2 = ["cargo", "kani", "playback", "-Z", "concrete-playback"] + fflags + ["--", tname]
     rc2, so2, se2, wall2 = sh(cmd2, cwd=dst, timeout=1500, env=env_offline({"CARGO_TARGET_DIR": os.path.join(BUILD, "playback-target")}))
     out = so2 + se2
     shutil.rmtree(dst, ignore_errors=True)
@@ -83,6 +88,19 @@ def attempt(prop, ob):
     try:
         if ob.engine in ("K", "G", "KT") and ob.extra.get("playback"):
             return ob.extra["playback"]
+        if ob.engine == "KT" and ob.extra.get("harness"):
+            r = kani_playback("", ob.extra["harness"], kernel=True)
+            # decode the ASCII string of the counterexample for readability
+            try:
+                vals = r.get("concrete_values_in_order_of_kani_any", [])
+                bs = [int(v) for v in vals if re.fullmatch(r"\d+", v)]
+                ln = [v for v in vals if v.endswith("ul")]
+                if bs and ln:
+                    n = int(ln[0][:-2])
+                    r["counterexample_string"] = bytes(bs[:n]).decode("ascii", "replace")
+            except Exception:
+                pass
+            return r
         if ob.engine in ("K", "G") and ob.extra.get("harness"):
             if _playbacks_done >= 3:
                 return {"reproduced": False, "method": "concrete playback limited to 3 refutations per run; see the other replay files of this run"}
